@@ -43,14 +43,15 @@ for r in sorted({s['round'] for s in seeds}):
     out.append('| %s | %d | %d | %d | %d |' % (r, len(ss), sum(1 for s in ss if s['prop'] in s['fired']), sum(1 for s in ss if s['fired']),
                                              sum(1 for s in ss if not s['fired'])))
 none = [s for s in seeds if s['confirmed'] and s['ran'] and not s['fired']]
-out += ['', '**Changes no check reports** (each makes the check of its property stop with an analysis error, exit 2: the rewritten code is',
-        'outside the shapes the analysis recognises, which is reported as such and never as "holds"):', '']
+out += ['', '**Changes no check reports** (where a check stopped with an analysis error on the changed tree - exit 2: the rewritten code is',
+        'outside the shapes the analysis recognises, reported as such and never as "holds" - it is named; the others are real misses:',
+        'the change keeps every structural rule intact and breaks the property through values the analysis does not track):', '']
 for s in none:
     out.append('* `%s` - %s (analysis errors: %s)' % (s['name'], s['summary'][:220], ', '.join(s['err']) or 'none'))
 nbonly = [s for s in seeds if s['confirmed'] and s['ran'] and s['fired'] and s['prop'] not in s['fired']]
-out += ['', '**Changes reported only by the check of a neighbouring property** (the defect sits in code another property owns - the BOM table',
-        'and newline helpers (C15), the read-ahead helper (C17), the hunk parser (C14), the scope stack (C04), the object-model tables',
-        '(C05/C06), `split_lines` (C16) - or it breaks a clause the neighbouring property states more directly):', '']
+out += ['', '**Changes reported only by the check of a neighbouring property** (after the imports of section 2 these are the cases where',
+        'the neighbouring rule is *not* a necessary condition of the property the change was written against - the change breaks a',
+        'clause the neighbouring property states and the own property does not - or where the own check stops with an analysis error):', '']
 for s in nbonly:
     out.append('* `%s` -> %s' % (s['name'], ', '.join(s['fired'])))
 # benign
@@ -64,7 +65,7 @@ for name in sorted(os.listdir(bdir)):
         b.append((name, sorted(k for k, x in ch.items() if x.get('exit') == 1), sorted(k for k, x in ch.items() if x.get('exit') not in (0, 1)), len(ch)))
 ran = [x for x in b if x[3]]
 out += ['', '**Behaviour-preserving refactorings** (`benign/`, %d patches, %d run against all 20 checks with the final code): %d with a false alarm, '
-        '%d with at least one analysis error (%s).' % (len(b), len(ran), sum(1 for x in ran if x[1]), sum(1 for x in ran if x[2]),
+        '%d with at least one analysis error (%s). Source: the last full audit (`audit/<id>.json`).' % (len(b), len(ran), sum(1 for x in ran if x[1]), sum(1 for x in ran if x[2]),
                                                      '; '.join('`%s`: %s' % (x[0], ', '.join(x[2])) for x in ran if x[2]) or 'none'),
         '<!-- /appendixB -->', '']
 p = os.path.join(HERE, 'DESIGN.md')
